@@ -13,7 +13,7 @@
 //! stdin:  policy none|random <limit>     init <op> (repeatable)     tick <n>
 //!         t1 <op>     park <n> (0 = dry run: count the step points)     t2 <op> (repeatable)     final <op> (repeatable)
 //! ops:    get k | set k v cas ttl | delete k cas | add k v | replace k v | append k v | prepend k v | incr k d | decr k d | flush delay
-//! stdout: steps <n> <trace>     concurrent t1=.. t2=.. final=..     seq12 ..     seq21 ..     completes true|false
+//! stdout: steps <n> <trace>     cas-issued <CAS values acknowledged by the two threads' mutations>     concurrent t1=.. t2=.. final=..     seq12 ..     seq21 ..     completes true|false
 use memcrs::cache::cache::{impl_details::CacheImplDetails, Cache, CacheMetaData, CachePredicate, CacheReadOnlyView, KeyType, Record, RemoveIfResult, SetStatus};
 use memcrs::cache::error::Result;
 use memcrs::memcache::random_policy::RandomPolicy;
@@ -23,6 +23,9 @@ use memcrs::server::timer::Timer;
 use std::io::BufRead;
 use std::sync::atomic::{AtomicU64, AtomicUsize, Ordering};
 use std::sync::{Arc, Condvar, Mutex};
+
+// CAS values acknowledged by successful mutations, in completion order (cleared by the caller)
+static CAS_LOG: Mutex<Vec<u64>> = Mutex::new(Vec::new());
 
 pub struct Ctl {
     now: AtomicU64,
@@ -120,6 +123,10 @@ fn run_op(store: &Arc<MemcStore>, op: &[String]) -> String {
     let extras = out[4] as usize;
     let body = &out[24..];
     if status != 0 { return format!("err:{}", status); }
+    if op[0] != "get" && op[0] != "flush" && op[0] != "delete" {
+        let cas = u64::from_be_bytes(out[16..24].try_into().unwrap());
+        CAS_LOG.lock().unwrap().push(cas);
+    }
     match op[0].as_str() {
         "get" => format!("hit:{}", String::from_utf8_lossy(&body[extras..])),
         "incr" | "decr" => format!("val:{}", u64::from_be_bytes(body[..8].try_into().unwrap())),
@@ -179,6 +186,7 @@ fn concurrent(s: &Scenario) -> (String, bool) {
     for op in &s.init { run_op(&store, op); }
     ctl.now.fetch_add(s.ticks_after_init, Ordering::SeqCst);
     ctl.park_at.store(s.park, Ordering::SeqCst);
+    CAS_LOG.lock().unwrap().clear();
     let (st1, c1, op1) = (store.clone(), ctl.clone(), s.t1.clone());
     let h = std::thread::spawn(move || { *c1.t1_id.lock().unwrap() = Some(std::thread::current().id()); run_op(&st1, &op1) });
     let mut waited = 0;
@@ -208,6 +216,7 @@ fn concurrent(s: &Scenario) -> (String, bool) {
     let mut n = 0;
     while !h.is_finished() && n < 3000 { std::thread::sleep(std::time::Duration::from_millis(1)); n += 1; }
     let r1 = if h.is_finished() { h.join().unwrap_or_else(|_| "panic".to_string()) } else { completes = false; "HUNG".to_string() };
+    println!("cas-issued {}", CAS_LOG.lock().unwrap().iter().map(|c| c.to_string()).collect::<Vec<_>>().join(","));
     let fin: Vec<String> = if completes {
         let (st, f) = (store.clone(), s.fin.clone());
         match with_watchdog(move || f.iter().map(|op| run_op(&st, op)).collect::<Vec<_>>().join(","), 3000) { Some(x) => vec![x], None => { completes = false; vec!["HUNG".to_string()] } }
